@@ -191,9 +191,9 @@ Proof.
   constructor; cbn; try assumption; lia.
 Qed.
 
-Lemma scale_data_wf K pc d reuse sc it pc' d' :
+Lemma scale_data_wf K sq pc d reuse sc it pc' d' :
   sane_consts K -> wf_data d -> wf_pc pc d ->
-  scale_data K pc d reuse sc it = Ok (pc', d') ->
+  scale_data K sq pc d reuse sc it = Ok (pc', d') ->
   wf_data d' /\ wf_pc pc' d' /\ pc_nlb pc' = d_nlb d' /\ pc_nub pc' = d_nub d' /\
   d_n d' = d_n d /\ d_p d' = d_p d /\ d_m d' = d_m d /\ d_lb_idx d' = d_lb_idx d /\ d_ub_idx d' = d_ub_idx d.
 Proof.
@@ -213,8 +213,8 @@ Proof.
       { apply wf_pc_set_counts; [split; [exact WL|repeat split; congruence]|lia|lia]. }
       cbn. repeat split; congruence.
     + assert (DA : dims_agree pc d) by (destruct WP as [_ DA]; exact DA).
-      pose proof (scale_establishes_inverse K SK pc d sc it pc' d' W DA H) as (_ & W2 & WP2 & E1 & E2 & I1 & I2).
-      pose proof (scaled_data_is_transform K SK pc d sc it pc' d' W DA H) as [T _].
+      pose proof (scale_establishes_inverse K sq SK pc d sc it pc' d' W DA H) as (_ & W2 & WP2 & E1 & E2 & I1 & I2).
+      pose proof (scaled_data_is_transform K sq SK pc d sc it pc' d' W DA H) as [T _].
       destruct T as [Tn Tp Tm _ _ _ _ _ _ _ _ _ _ _]. auto 10.
 Qed.
 
@@ -306,8 +306,8 @@ Proof. intros [] H1 H2. split; [constructor; assumption|repeat split]. Qed.
 Lemma zero_out_wf n p m : wf_out n p m (zero_out n p m).
 Proof. constructor; cbn; lens; reflexivity. Qed.
 
-Theorem setup_wf K ident junk St n p m B sv :
-  sane_consts K -> setup_blocks_ok n p m B -> setup K ident junk St n p m B = Ok sv ->
+Theorem setup_wf K ident spc junk St n p m B sv :
+  sane_consts K -> setup_blocks_ok n p m B -> setup K ident spc junk St n p m B = Ok sv ->
   wf_solver sv /\ d_n (sv_data sv) = n /\ d_p (sv_data sv) = p /\ d_m (sv_data sv) = m.
 Proof.
   intros SK (BO & NA & Nb & NG & Nh) H. destruct BO as (BP & Bc & BA & Bb & BG & Bh & Blb & Bub).
@@ -348,7 +348,7 @@ Proof.
     - apply vconst_length. }
   destruct (pc_inverse_init ident d0 W0) as [_ WP0]. fold pc0 in WP0.
   binv H. injection H as <-. cbn.
-  destruct (scale_data_wf _ _ _ _ _ _ _ _ SK W0 WP0 E) as (W1 & WP1 & N1 & N2 & En & Ep & Em & _ & _).
+  destruct (scale_data_wf _ _ _ _ _ _ _ _ _ SK W0 WP0 E) as (W1 & WP1 & N1 & N2 & En & Ep & Em & _ & _).
   split; [|unfold d0 in *; cbn in *; auto].
   constructor; cbn; try assumption.
   - eapply kkt_init_wf; eassumption.
@@ -361,6 +361,7 @@ Qed.
 (* DenseSolver::update, block by block (the same term as API.update, with the eight conditional assignments named) *)
 Section UpdateSteps.
 Variable K : Consts.
+Variable spc : bool.
 Variable B : Blocks.
 Definition stepP (d : Data) : Data := match b_P B with Some P => (d <| d_P := upper_tri P |>) | None => d end.
 Definition stepA (p : nat) (d : Data) : Data := match b_A B with Some A => (d <| d_AT := mtranspose p A |>) | None => d end.
@@ -382,9 +383,9 @@ Definition stepub (d : Data) : Data :=
 Definition all_steps (d0 : Data) : Data := stepub (steplb (steph (stepb (stepc (stepG (d_m d0) (stepA (d_p d0) (stepP d0))))))).
 
 Lemma update_unfold sv reuse :
-  update K sv B reuse =
+  update K spc sv B reuse =
   (do d0 <- unscale_data (sv_pc sv) (sv_data sv) ;;
-   do '(pc, d) <- scale_data K (sv_pc sv) (all_steps d0) reuse (preconditioner_scale_cost (sv_set sv)) (preconditioner_iter (sv_set sv)) ;;
+   do '(pc, d) <- scale_data K spc (sv_pc sv) (all_steps d0) reuse (preconditioner_scale_cost (sv_set sv)) (preconditioner_iter (sv_set sv)) ;;
    let oP := match b_P B with Some _ => true | None => false end in
    let oA := match b_A B with Some _ => true | None => false end in
    let oG := match b_G B with Some _ => true | None => false end in
@@ -447,10 +448,10 @@ Proof.
 Qed.
 End UpdateSteps.
 
-Theorem update_wf K sv B reuse sv' :
+Theorem update_wf K spc sv B reuse sv' :
   sane_consts K -> wf_solver sv ->
   blocks_ok (d_n (sv_data sv)) (d_p (sv_data sv)) (d_m (sv_data sv)) B ->
-  update K sv B reuse = Ok sv' ->
+  update K spc sv B reuse = Ok sv' ->
   wf_solver sv' /\ same_dims (sv_data sv) (sv_data sv').
 Proof.
   intros SK [Wd WP Nlb Nub Wk Wo] BO H. rewrite update_unfold in H.
@@ -458,10 +459,10 @@ Proof.
   destruct (unscale_data_wf _ _ _ Wd WP Nlb Nub EU) as (W0 & En0 & Ep0 & Em0 & _ & _).
   rewrite <- En0, <- Ep0, <- Em0 in BO.
   destruct (all_steps_wf K B d0 W0 BO) as [W8 (En8 & Ep8 & Em8)].
-  destruct (scale_data K (sv_pc sv) (all_steps K B d0) reuse _ _) as [[pc d]|] eqn:ES; cbn [bind] in H; [|discriminate].
+  destruct (scale_data K spc (sv_pc sv) (all_steps K B d0) reuse _ _) as [[pc d]|] eqn:ES; cbn [bind] in H; [|discriminate].
   assert (WP8 : wf_pc (sv_pc sv) (all_steps K B d0)).
   { destruct WP as [WL (A1 & A2 & A3)]. split; [exact WL|]. repeat split; congruence. }
-  destruct (scale_data_wf _ _ _ _ _ _ _ _ SK W8 WP8 ES) as (W9 & WP9 & N1 & N2 & En & Ep & Em & _ & _).
+  destruct (scale_data_wf _ _ _ _ _ _ _ _ _ SK W8 WP8 ES) as (W9 & WP9 & N1 & N2 & En & Ep & Em & _ & _).
   cbv zeta in H.
   destruct (kkt_update_data d (sv_kkt sv) _ _ _) as [k|] eqn:EK; cbn [bind] in H; [|discriminate].
   injection H as <-. cbn.
@@ -1026,18 +1027,18 @@ Qed.
 (** * I. shapes_invariant                                               *)
 (* ================================================================== *)
 
-Theorem setup_shape K ident junk St n p m B sv :
-  sane_consts K -> setup_blocks_ok n p m B -> setup K ident junk St n p m B = Ok sv ->
+Theorem setup_shape K ident spc junk St n p m B sv :
+  sane_consts K -> setup_blocks_ok n p m B -> setup K ident spc junk St n p m B = Ok sv ->
   shape_of sv = canon_shape n p m /\ fits sv.
 Proof.
-  intros SK BO H. destruct (setup_wf _ _ _ _ _ _ _ _ _ SK BO H) as (Ws & <- & <- & <-). apply wf_solver_shape, Ws.
+  intros SK BO H. destruct (setup_wf _ _ _ _ _ _ _ _ _ _ SK BO H) as (Ws & <- & <- & <-). apply wf_solver_shape, Ws.
 Qed.
 
-Theorem update_shape K sv B reuse sv' :
+Theorem update_shape K spc sv B reuse sv' :
   sane_consts K -> wf_solver sv -> blocks_ok (d_n (sv_data sv)) (d_p (sv_data sv)) (d_m (sv_data sv)) B ->
-  update K sv B reuse = Ok sv' -> shape_of sv' = shape_of sv /\ fits sv' /\ wf_solver sv'.
+  update K spc sv B reuse = Ok sv' -> shape_of sv' = shape_of sv /\ fits sv' /\ wf_solver sv'.
 Proof.
-  intros SK Ws BO H. destruct (update_wf _ _ _ _ _ SK Ws BO H) as (Ws' & E1 & E2 & E3).
+  intros SK Ws BO H. destruct (update_wf _ _ _ _ _ _ SK Ws BO H) as (Ws' & E1 & E2 & E3).
   destruct (wf_solver_shape _ Ws) as [S1 _]. destruct (wf_solver_shape _ Ws') as [S2 F2].
   rewrite S1, S2, E1, E2, E3. auto.
 Qed.
@@ -1053,20 +1054,20 @@ Qed.
 
 (* all histories: after an accepted setup, every accepted sequence of update (any block subset, any reuse value, any
    change of the finite-bound pattern) and solve (any fault oracle, any exit status) leaves the shape where setup put it *)
-Theorem shapes_invariant K ident junk cp_bits St n p m B sv0 :
-  sane_consts K -> setup_blocks_ok n p m B -> setup K ident junk St n p m B = Ok sv0 ->
-  forall h sv, Forall (sop_ok n p m) h -> run_sops K junk cp_bits sv0 h = Ok sv ->
+Theorem shapes_invariant K ident spc junk cp_bits St n p m B sv0 :
+  sane_consts K -> setup_blocks_ok n p m B -> setup K ident spc junk St n p m B = Ok sv0 ->
+  forall h sv, Forall (sop_ok n p m) h -> run_sops K spc junk cp_bits sv0 h = Ok sv ->
   shape_of sv = shape_of sv0 /\ shape_of sv = canon_shape n p m /\ fits sv.
 Proof.
-  intros SK BO H0. destruct (setup_wf _ _ _ _ _ _ _ _ _ SK BO H0) as (Ws0 & En & Ep & Em).
+  intros SK BO H0. destruct (setup_wf _ _ _ _ _ _ _ _ _ _ SK BO H0) as (Ws0 & En & Ep & Em).
   destruct (wf_solver_shape _ Ws0) as [S0 _]. rewrite En, Ep, Em in S0.
   assert (G : forall h sv1 sv, wf_solver sv1 -> d_n (sv_data sv1) = n -> d_p (sv_data sv1) = p -> d_m (sv_data sv1) = m ->
-              Forall (sop_ok n p m) h -> run_sops K junk cp_bits sv1 h = Ok sv ->
+              Forall (sop_ok n p m) h -> run_sops K spc junk cp_bits sv1 h = Ok sv ->
               shape_of sv = canon_shape n p m /\ fits sv).
   { induction h as [|o t IH]; intros sv1 sv W1 E1 E2 E3 Fh H; cbn [run_sops] in H.
     - injection H as <-. destruct (wf_solver_shape _ W1) as [S F]. rewrite E1, E2, E3 in S. auto.
     - inversion Fh as [|? ? Ho Ft]; subst. bstep H as sv2 Es. destruct o as [Bu reuse|fl]; cbn [sop_step sop_ok] in *.
-      + rewrite <- E1, <- E2, <- E3 in Ho. destruct (update_wf _ _ _ _ _ SK W1 Ho Es) as (W2 & D1 & D2 & D3).
+      + rewrite <- E1, <- E2, <- E3 in Ho. destruct (update_wf _ _ _ _ _ _ SK W1 Ho Es) as (W2 & D1 & D2 & D3).
         apply (IH sv2 sv W2); try assumption; congruence.
       + bstep Es as [sv3 stt] Ess. injection Es as <-.
         destruct (solve_wf _ _ _ _ _ _ _ W1 Ess) as (W2 & D & _).
